@@ -47,6 +47,13 @@ type PipeRule struct {
 type Pipe struct {
 	Table Table
 	Rules []PipeRule // parallel to Table.Aggs
+
+	memo map[string]*pipeMemo // name -> routing outcome and output keys (pure functions of the name for a fixed table)
+}
+
+type pipeMemo struct {
+	o    Outcome
+	keys []string
 }
 
 // PipeState is the model state: the open buckets of every aggregation.
@@ -101,8 +108,21 @@ type PipePoint struct {
 
 // Point feeds one raw metric (integer value v, timestamp ts) and updates the state.
 func (p *Pipe) Point(s *PipeState, name string, v int64, ts int64) PipePoint {
-	o := p.Table.Dispatch(name)
-	pp := PipePoint{Outcome: o, Line: o.Name + " " + strconv.FormatInt(v, 10) + " " + strconv.FormatInt(ts, 10), Keys: make([]string, len(p.Rules))}
+	m := p.memo[name]
+	if m == nil {
+		m = &pipeMemo{o: p.Table.Dispatch(name), keys: make([]string, len(p.Rules))}
+		for i, took := range m.o.AggSeen {
+			if took {
+				m.keys[i] = pipeExpand(p.Rules[i].Format, pipeRegex(p.Table.Aggs[i].Filter.Regex), m.o.Name)
+			}
+		}
+		if p.memo == nil {
+			p.memo = map[string]*pipeMemo{}
+		}
+		p.memo[name] = m
+	}
+	o := m.o
+	pp := PipePoint{Outcome: o, Line: o.Name + " " + strconv.FormatInt(v, 10) + " " + strconv.FormatInt(ts, 10), Keys: m.keys}
 	if o.Blacklisted {
 		return pp
 	}
@@ -111,8 +131,7 @@ func (p *Pipe) Point(s *PipeState, name string, v int64, ts int64) PipePoint {
 			continue
 		}
 		r := p.Rules[i]
-		key := pipeExpand(r.Format, pipeRegex(p.Table.Aggs[i].Filter.Regex), o.Name)
-		pp.Keys[i] = key
+		key := m.keys[i]
 		b := ts - ts%r.Interval
 		if s.open[i][b] == nil {
 			s.open[i][b] = map[string]int64{}
@@ -181,6 +200,35 @@ func (s *PipeState) Canon(origin int64) string {
 	}
 	sort.Strings(parts)
 	return strings.Join(parts, ",")
+}
+
+// Hash is an order-independent 64-bit digest of what Canon renders (used to
+// count distinct states without building strings).
+func (s *PipeState) Hash(origin int64) uint64 {
+	var sum uint64
+	for i, m := range s.open {
+		for b, keys := range m {
+			for k, acc := range keys {
+				h := uint64(14695981039346656037)
+				mix := func(x uint64) {
+					for j := 0; j < 8; j++ {
+						h ^= x & 0xff
+						h *= 1099511628211
+						x >>= 8
+					}
+				}
+				mix(uint64(i))
+				mix(uint64(b - origin))
+				mix(uint64(acc))
+				for j := 0; j < len(k); j++ {
+					h ^= uint64(k[j])
+					h *= 1099511628211
+				}
+				sum += h
+			}
+		}
+	}
+	return sum
 }
 
 // Empty reports whether no bucket is open.
